@@ -733,8 +733,11 @@ fn lex_calc(song: &mut Song, src: &str, lineno: isize) -> Vec<Token> {
     while !cur.is_eos() {
         let lastpos = cur.index;
         let tokens = read_calc_tokens(&mut cur, song).unwrap_or(vec![]);
+        let is_empty = tokens.is_empty();
         result.extend(tokens);
         if cur.peek().unwrap_or('\0') == ',' {
+            // an argument left empty before a comma still holds its position (as in a call written as a statement)
+            if is_empty { result.push(Token::new_tokens(TokenType::Tokens, 0, vec![])); }
             cur.next();
             continue;
         }
